@@ -423,7 +423,9 @@ class Executor:
         rec["mid"] = op[1]
         rec["ref"] = self.ref_ops(op[1], op)
         if k in ("call", "evaluate") and sh["spec"].get("params"):
-            rec["ref2"] = self.ref_ops(op[1], op, as_constants=True)
+            bad = k == "call" and (sh["handles"].get(op[2]) or [None, {}])[1].get("bad_order")
+            if not bad:  # (a request that deliberately cannot be compiled has no constants twin to agree with)
+                rec["ref2"] = self.ref_ops(op[1], op, as_constants=True)
         if k == "solve" and op[2].get("r2"):
             rec["ref2"] = self.ref_ops(op[1], op, as_constants=True)
             rec["r2_convex"] = op[2]["r2"] == "convex"
